@@ -26,7 +26,8 @@ COMPONENTS = {"real": ["ECAgent.Core._MetaAgent (per-class _components / _tag, a
 PROBES = ["explicit_tag_zero_with_nonzero_default", "tag_set_on_Agent_itself", "class_component_on_environment_class",
           "reject_duplicate_attach", "reject_detach_absent", "instance_component_attached", "subclass_instantiated_after_tag",
           "parent_instantiated_after_child_tag", "child_instantiated_after_parent_tag", "depth_3_chain", "sibling_isolation_checked", "class_created_mid_history", "class_cloned_from_namespace",
-          "shared_namespace_dict", "model_lifecycle_op", "many_classes", "class_level_op_inside_creation_hook", "model_built_mid_history", "classes_sharing_module_and_qualname", "diamond_of_environment_and_agent_class", "default_tag_set_inside_the_constructor"]
+          "shared_namespace_dict", "model_lifecycle_op", "many_classes", "class_level_op_inside_creation_hook", "model_built_mid_history", "classes_sharing_module_and_qualname", "diamond_of_environment_and_agent_class", "default_tag_set_inside_the_constructor",
+          "one_component_object_attached_to_two_classes"]
 TECHNIQUE = "deterministic simulation: seeded class-level attach/detach/tag histories over generated hierarchies, pristine forked process per history, per-class reference"
 LEVEL_TEXT = ("Seeded search over class hierarchies and class-level histories; after every operation, for every class in the "
               "hierarchy including Agent and Environment, class components, length, membership and default tag must equal a "
@@ -120,7 +121,7 @@ def generate(rng, tier):
         c = rng.randrange(n) if rng.random() < 0.85 else rng.choice([n - 2, n - 1])
         r = rng.random()
         if r < 0.25:
-            ops.append({"op": "attach", "c": c, "t": rng.randrange(3)})
+            ops.append({"op": "attach", "c": c, "t": rng.randrange(3), "shared": rng.random() < 0.2})
         elif r < 0.4:
             ops.append({"op": "detach", "c": c, "t": rng.randrange(3)})
         elif r < 0.6:
@@ -291,6 +292,11 @@ def execute(sc, ctx):
         elif kind == "attach":
             T = PT[op["t"] % 3]
             comp = T(cls, m)
+            holders = [j for j in range(len(built)) if j != i and T in comps[j]]
+            if op.get("shared") and holders:
+                # the very component object another class holds is attached here as well: both classes have it from now on
+                comp = comps[holders[0]][T]
+                ctx.probe("one_component_object_attached_to_two_classes")
             if T in comps[i]:
                 ctx.fault("reject.class_component")
                 ctx.probe("reject_duplicate_attach")
